@@ -81,7 +81,10 @@ func buildSim(verifDir, repo, work string) (*buildResult, error) {
 			if rel == "." {
 				base = n
 			}
-			stmtMode := rel == "drpcsignal"
+			// statement-level scheduling points: always for drpcsignal (C19); for the
+			// concurrent core packages too (class ClassStmt is enabled only in a
+			// small fraction of runs, otherwise each point is one atomic load)
+			stmtMode := rel == "drpcsignal" || rel == "drpcstream" || rel == "drpcmanager" || rel == "drpcwire" || rel == "drpcconn" || rel == "drpcserver" || rel == "drpcpool" || rel == "drpcmigrate" || rel == "drpcctx"
 			out, probs, err := instrumentFile(src, base, stmtMode)
 			if err != nil {
 				return nil, err
